@@ -161,6 +161,12 @@ PROPS["C09"]["parts"].append(dict(name="pubstore09", domain="store", domain_modu
 PROPS["C12"]["parts"].append(dict(name="racepub12", domain="resume", domain_module="resume", gen=resume.gen_racepub, n_quick=6, n_thorough=200, chunk=4))
 PROPS["C09"]["parts"].append(dict(name="racepub09", domain="resume", domain_module="resume", gen=resume.gen_racepub, n_quick=6, n_thorough=200, chunk=4))
 
+# C13 over the real durable-streams store: lost acknowledgements (the bus-level theorems are about a store that says no;
+# here the store said yes and the answer got lost)
+PROPS["C13"]["parts"].append(dict(name="flaky13", domain="store", domain_module="store", gen=store.gen_flaky, n_quick=30, n_thorough=600, chunk=8))
+# C03's "replay … use the bundled stores … no such use deadlocks": publishes from inside replays over the three real stores
+PROPS["C03"]["parts"].append(dict(name="pubstore03", domain="store", domain_module="store", gen=store.gen_pub, n_quick=40, n_thorough=800, chunk=16))
+
 # C07's "every event is still delivered to it exactly once": the sequential machine with mostly Sequential handlers,
 # panicking bodies included (a Sequential handler that panics must give its mutex back)
 PROPS["C07"]["parts"].append(dict(name="bus07", domain="bus", domain_module="bus", gen=bus.make_gen("C07"), n_quick=200, n_thorough=6000, chunk=128))
